@@ -90,7 +90,7 @@ func runC01(c *Ctx) {
 		// V6: a vote request with a higher term bumps our term only when the lease check let it through
 		bf := an.Call("raft.(*raft).becomeFollower")
 		r.Guard("C01-V6", u, bf.Where("higher-term branch", func(u *an.Unit, s *an.Site) bool { return u.ArgTerm(s, 0) == "p0.Term" }),
-			"!((p0.Type == raftpb.MsgVote || p0.Type == raftpb.MsgPreVote) && !force && recv.checkQuorum && recv.lead != raft.None && recv.electionElapsed < recv.electionTimeout)", an.GuardOpts{Min: 2})
+			"!((p0.Type == raftpb.MsgVote || p0.Type == raftpb.MsgPreVote) && !bytes.Equal(p0.Context, []byte(raft.campaignTransfer)) && recv.checkQuorum && recv.lead != raft.None && recv.electionElapsed < recv.electionTimeout)", an.GuardOpts{Min: 2})
 		r.StoreValues("C01-V6", u, an.LocalStore("force"), []string{"bytes.Equal(p0.Context, []byte(raft.campaignTransfer))"}, 1)
 		// V3: term provenance at becomeFollower in Step
 		r.Guard("C01-V3", u, bf.Where("term argument m.Term", func(u *an.Unit, s *an.Site) bool { return u.ArgTerm(s, 0) == "p0.Term" }), "recv.Term < p0.Term", an.GuardOpts{Min: 2})
@@ -223,7 +223,7 @@ func runC01(c *Ctx) {
 		r.ArgValues("C01-V7", u, sl, 0, []string{"(1 + recv.raftLog.applied)"}, 1)
 		r.ArgValues("C01-V7", u, sl, 1, []string{"(1 + recv.raftLog.committed)"}, 1)
 		r.ArgValues("C01-V7", u, sl, 2, []string{"raft.noLimit"}, 1)
-		r.Guard("C01-V7", u, an.Call("raft.(*raft).campaign"), "!(n != 0 && recv.raftLog.applied < recv.raftLog.committed)", an.GuardOpts{Min: 1})
+		r.Guard("C01-V7", u, an.Call("raft.(*raft).campaign"), "!(raft.numOfPendingConf(ents) != 0 && recv.raftLog.applied < recv.raftLog.committed)", an.GuardOpts{Min: 1})
 		r.StoreValues("C01-V7", u, an.LocalStore("n"), []string{"raft.numOfPendingConf(ents)"}, 1)
 		r.Order("C01-V7", u, an.Call("raft.(*raft).campaign"), []an.M{sl.Ok(an.NilErr)}, an.OrderOpts{Min: 1})
 	}
